@@ -71,6 +71,7 @@ func VerifHarness_C13_rt() {
 	n := verifConc(ndInt("entries", 0, 2))
 	maxNested := 1 + verifTier()
 	var want []c13Entry
+	var lastNested *RepeatingGroup // a populated builder, possibly reused as the nested item of the reading template
 	g := NewRepeatingGroup(c13Group, c13Template())
 	for i := 0; i < n; i++ {
 		e := c13Entry{delim: verifValueN("delim", 1)}
@@ -94,6 +95,7 @@ func VerifHarness_C13_rt() {
 				e.nested = append(e.nested, ne)
 			}
 			ge.SetGroup(ng)
+			lastNested = ng
 		}
 		if ndBool("has-sibling-nested-group") {
 			sg := NewRepeatingGroup(c13Sibling, GroupTemplate{GroupElement(c13SDelim)})
@@ -157,7 +159,13 @@ func VerifHarness_C13_rt() {
 	if err != nil {
 		return
 	}
-	got := NewRepeatingGroup(c13Group, c13Template())
+	tmpl := c13Template()
+	if lastNested != nil && place == 0 && ndBool("template-item-is-a-used-builder") {
+		// hand-written code often keeps one object as builder and as template item: reading clones the item empty
+		tmpl = GroupTemplate{GroupElement(c13Delim), GroupElement(c13Opt), lastNested,
+			NewRepeatingGroup(c13Sibling, GroupTemplate{GroupElement(c13SDelim)}), GroupElement(c13After)}
+	}
+	got := NewRepeatingGroup(c13Group, tmpl)
 	rerr := p.Body.GetGroup(got)
 	verifAssert(rerr == nil, "group-readable-through-template")
 	if rerr != nil {
